@@ -242,13 +242,13 @@ def eval_operand(o, idx, customs):
                 nd = dmul(a.d, n.v)
                 if any(abs(x - round(x)) > 1e-12 for x in nd):
                     raise Undefined('fractional dimension')
-                if a.v <= 0 and (n.v != int(n.v) or a.v == 0):
+                if abs(a.v) <= 1000 * a.e or (a.v <= 0 and n.v != int(n.v)):
                     raise Undefined('domain')
                 v = a.v ** n.v
                 e = abs(v) * (abs(n.v) * a.e / abs(a.v) + (abs(math.log(abs(a.v))) * n.e)) + U * abs(v)
                 return Q(v, tuple(int(round(x)) for x in nd), e)
             if name == 'sqrt':
-                if a.v <= 0 or any(x % 2 for x in a.d):
+                if a.v - 1000 * a.e <= 0 or any(x % 2 for x in a.d):
                     raise Undefined('domain')
                 v = math.sqrt(a.v)
                 return Q(v, tuple(x // 2 for x in a.d), a.e / (2 * v) + U * v)
@@ -258,12 +258,12 @@ def eval_operand(o, idx, customs):
                 v = math.exp(a.v)
                 return Q(v, NODIM, v * a.e + 2 * U * v)
             if name == 'log':
-                if a.v <= 0:
+                if a.v - 1000 * a.e <= 0:
                     raise Undefined('domain')
                 v = math.log(a.v)
                 return Q(v, NODIM, a.e / a.v + 2 * U * abs(v))
             if name == 'log10':
-                if a.v <= 0:
+                if a.v - 1000 * a.e <= 0:
                     raise Undefined('domain')
                 v = math.log10(a.v)
                 return Q(v, NODIM, a.e / a.v / math.log(10) + 2 * U * abs(v))
@@ -296,8 +296,8 @@ def eval_num(seq, idx, customs):
                     v = a.v * x.v
                     vals[-1] = Q(v, dadd(a.d, x.d), abs(a.v) * x.e + abs(x.v) * a.e + U * abs(v))
                 else:
-                    if x.v == 0:
-                        raise Undefined('division by zero')
+                    if abs(x.v) <= 1000 * x.e:
+                        raise Undefined('division by zero')      # denominator not distinguishable from zero
                     v = a.v / x.v
                     vals[-1] = Q(v, dadd(a.d, x.d, -1), (a.e + abs(v) * x.e) / abs(x.v) + U * abs(v))
             except OverflowError:
@@ -562,10 +562,10 @@ class LogEval:
     """evaluates a logical tree; mode None = documented semantics, mode 'twin' = semantics of the recorded defects.
     Values are (truth, bare) where bare = 'the real code would hold a plain numpy/python bool here'."""
 
-    def __init__(self, env, twin=False):
+    def __init__(self, env, twin=False, unitdef=True):
         self.idx = env_index(env)
-        self.customs = customs_of(env.get('units'), twin)
-        self.bad = bad_customs(env.get('units')) if twin else set()
+        self.customs = customs_of(env.get('units'), twin and unitdef)
+        self.bad = bad_customs(env.get('units')) if (twin and unitdef) else set()
         self.twin = twin
         self.used = set()
 
